@@ -1,22 +1,194 @@
 /-
-  C01 — Round-trip fidelity of every finalized archive (block-stream level; the layer round trips
-  are in Theorems/C01Layers once the layer models are in).  This file is extended as proofs land.
+  C01 — round trip at the level of the typed block stream.
+
+  For every op sequence all of whose calls are accepted and which ends with `finalize`, reading the
+  emitted plaintext stream with the index the writer built gives back, for every started file, its
+  name (in order), exactly the bytes appended to it (for every read-buffer size `n > 0`), their
+  number, and the hash of those bytes.
+
+  Hypotheses beyond "accepted": names are valid UTF-8 and sizes are u64 (`Op.WF`, the Rust API takes
+  `&str` / `u64`); fewer than 2^64 calls (ids fit in a u64); the stream is shorter than 2^64 bytes
+  (name lengths fit in a u64 even if `P.nameMax ≥ 2^64`); the hash function returns 32 bytes
+  (`hH`) — without `hH` the statement is false, see the counterexample at the end of this file.
 -/
-import MlaModel.Proofs.Blocks
+import MlaModel.Spec
+import MlaModel.Proofs.ReaderCorrect
+import MlaModel.Proofs.WriterInv
 namespace MlaModel.C01
 open MlaModel
 
-/-- the codec of the typed block stream is a round trip on every well-formed block -/
-theorem block_roundtrip (P : Params) (utf8 : Bytes → Bool) (b : Block) (rest : Bytes)
-    (h : b.WF P utf8) : Block.decode P utf8 (b.encode ++ rest) = .ok (b, rest) :=
-  Block.decode_encode P utf8 b rest h
+theorem encode_length_le_of_mem {b : Block} {bs : List Block} (h : b ∈ bs) :
+    b.encode.length ≤ (encodeAll bs).length := by
+  induction bs with
+  | nil => simp at h
+  | cons x xs ih =>
+    rcases List.mem_cons.1 h with h | h
+    · subst h; simp
+    · have := ih h; simp; omega
 
-theorem stream_roundtrip (P : Params) (utf8 : Bytes → Bool) (bs : List Block)
-    (h : ∀ b ∈ bs, b.WF P utf8) :
-    decodeAll P utf8 (bs.length + 1) (encodeAll bs) = (bs, none) :=
-  decodeAll_encodeAll P utf8 bs h _ (Nat.lt_succ_self _)
+/-- a block the writer produced is well formed for the reader once ids and lengths fit in a u64 -/
+theorem wf_of_wf0 {P : Params} {utf8 : Bytes → Bool} {nid : Nat} {b : Block}
+    (h : b.WF0 P utf8 nid) (hn : nid ≤ U64) (hl : b.encode.length < U64) :
+    b.WF P utf8 ∧ b.NE := by
+  have hel := Block.encode_length b
+  cases b with
+  | start id name =>
+    simp only at hel
+    exact ⟨⟨by have := h.1; omega, h.2.1, by omega, h.2.2⟩, trivial⟩
+  | content id d => exact ⟨⟨by have := h.1; omega, h.2.2⟩, h.2.1⟩
+  | eof id g => exact ⟨⟨by have := h.1; omega, h.2⟩, trivial⟩
+  | eoad => exact absurd h (by simp [Block.WF0])
 
-example : (Block.content 3 [1, 2, 3]).WF Params.prod (fun _ => true) := by
-  simp [Block.WF, U64]
+/-- the state in which the closing `finalize` was accepted -/
+theorem finalize_accepted {s s1 : WState} {r : Res} {e : Bytes}
+    (h : stepFinalize s = (s1, r, e)) (hr : r.isOk = true) :
+    s.finalized = false ∧ s.opened = [] ∧ s1.index = s.index ∧
+      e = Block.eoad.encode ++ encFooter s.names s.info := by
+  unfold stepFinalize at h
+  split at h
+  · simp only [Prod.mk.injEq] at h; obtain ⟨_, rfl, _⟩ := h; simp [Res.isOk] at hr
+  · rename_i hf
+    split at h
+    · simp only [Prod.mk.injEq] at h; obtain ⟨_, rfl, _⟩ := h; simp [Res.isOk] at hr
+    · rename_i ho
+      simp only [Prod.mk.injEq] at h
+      obtain ⟨rfl, _, rfl⟩ := h
+      refine ⟨by simpa using hf, by simpa using ho, rfl, rfl⟩
+
+/-- **C01.blocks** — round trip at the level of the typed block stream, for every op sequence. -/
+theorem blocks (P : Params) (H : Bytes → Bytes) (utf8 : Bytes → Bool) (ops : List Op)
+    (hH : ∀ b, (H b).length = hashLen)         -- the hash has 32 bytes
+    (hwf : ∀ op ∈ ops, op.WF utf8)             -- names valid UTF-8, sizes < 2^64
+    (hacc : AllAccepted P H ops)               -- every call accepted
+    (hfin : ops.getLast? = some .finalize)     -- ends with finalize
+    (hlen : ops.length < U64)                  -- fewer than 2^64 calls (ids fit in u64)
+    (hpos : (Writer.run P H ops).2.2.length < U64) -- the stream is shorter than 2^64 bytes
+    :
+    let st := (Writer.run P H ops).1
+    let stream := (Writer.run P H ops).2.2
+    Reader.listFiles st.index = (specOf ops).map (·.1) ∧
+    ∀ name content, (name, content) ∈ specOf ops → ∀ n, 0 < n →
+      Reader.getFile P utf8 stream st.index name n = .ok content ∧
+      Reader.getSize st.index name = .ok content.length ∧
+      Reader.getHash P utf8 stream st.index name = .ok (H content) := by
+  obtain ⟨ops', rfl⟩ := List.getLast?_eq_some_iff.1 hfin
+  unfold AllAccepted at hacc
+  unfold Writer.run at hacc hpos ⊢
+  rw [runFrom_append] at hacc hpos ⊢
+  simp only at hacc hpos ⊢
+  -- the closing finalize
+  have hlast : Writer.runFrom P H (Writer.runFrom P H WState.init ops').1 [.finalize] =
+      ((stepFinalize (Writer.runFrom P H WState.init ops').1).1,
+       [(stepFinalize (Writer.runFrom P H WState.init ops').1).2.1],
+       (stepFinalize (Writer.runFrom P H WState.init ops').1).2.2 ++ []) := by
+    simp [Writer.runFrom, Writer.step]
+  rw [hlast] at hacc hpos ⊢
+  simp only [List.append_nil] at hacc hpos ⊢
+  generalize hs' : (Writer.runFrom P H WState.init ops').1 = s' at *
+  obtain ⟨hnf, hop, hidx, he⟩ := finalize_accepted (s := s') (s1 := (stepFinalize s').1)
+    (r := (stepFinalize s').2.1) (e := (stepFinalize s').2.2) rfl (hacc _ (by simp))
+  -- the invariant before it
+  obtain ⟨nb, hnb, hinv⟩ := run_inv (P := P) (H := H) (utf8 := utf8) hH ops' WState.init [] {}
+    (Inv.init P H utf8) (fun o ho => hwf o (by simp [ho])) (fun r hr => hacc r (by simp [hr]))
+    (by rw [hs']; exact hnf)
+  rw [hs'] at hinv
+  simp only [List.nil_append] at hinv
+  generalize hsp : ops'.foldl SpecState.step {} = sp at hinv
+  have hspec : specOf (ops' ++ [.finalize]) = s'.names.map (fun p => (p.1, contentOf p.2 nb)) := by
+    simp [specOf, List.foldl_append, hsp, SpecState.step, hinv.spf, List.map_map, Function.comp_def]
+  have hindex : s'.index = s'.names.map
+      (fun p => (p.1, (fun id => (alookup id s'.info).getD ⟨[], 0, 0⟩) p.2)) := rfl
+  rw [hidx, hnb, he, hspec]
+  generalize htail : Block.eoad.encode ++ encFooter s'.names s'.info = tail at *
+  rw [hnb] at hpos
+  -- bounds
+  have hnid : s'.nextId ≤ U64 := by
+    have := spec_next_le ops' {}
+    rw [hsp, hinv.spn] at this
+    simp only [List.length_append, List.length_singleton] at hlen
+    have h0 : ({} : SpecState).next = 0 := rfl
+    omega
+  have hoks : ∀ b ∈ nb, b.WF P utf8 ∧ b.NE := by
+    intro b hb
+    refine wf_of_wf0 (hinv.wf0 b hb) hnid ?_
+    have := encode_length_le_of_mem hb
+    simp only [List.length_append] at hpos
+    omega
+  refine ⟨?_, ?_⟩
+  · simp [Reader.listFiles, hindex, List.map_map, Function.comp_def]
+  · intro name content hmem n hn
+    obtain ⟨p, hp, hpe⟩ := List.mem_map.1 hmem
+    simp only [Prod.mk.injEq] at hpe
+    obtain ⟨rfl, rfl⟩ := hpe
+    obtain ⟨pname, id⟩ := p
+    simp only
+    obtain ⟨fi, hfi, hok⟩ := hinv.files pname id hp
+    have hfind : Index.find s'.index pname = some fi := by
+      refine (find_index s'.names (fun id => (alookup id s'.info).getD ⟨[], 0, 0⟩) pname).trans ?_
+      rw [nameLookup_of_mem pname id s'.names hinv.nodup hp]
+      simp [hfi]
+    obtain ⟨pre, rest, hbs, hpre, _, hclosed⟩ := hok.tr
+    obtain ⟨hot, p2, r2, hbs2, heof⟩ := hclosed (by rw [hop]; rfl)
+    have hstart := (hoks (.start id pname) (by rw [hbs]; simp)).1
+    have hrest : OKs P utf8 rest := fun b hb => hoks b (by rw [hbs]; simp [hb])
+    refine ⟨?_, ?_, ?_⟩
+    · have := getFile_blocks (P := P) (utf8 := utf8) (s := encodeAll nb ++ tail) (tail := tail)
+        (i := id) hn pre pname rest s'.index pname fi hfind (by rw [hbs]) hstart hrest hot hpre
+        (by rw [hok.offs, hbs])
+      rw [this, hbs]
+    · simp [Reader.getSize, hfind, hok.size]
+    · have hmemE : ∀ g, nb = p2 ++ Block.eof id g :: r2 → Block.eof id g ∈ nb := by
+        intro g hg; rw [hg]; simp
+      have hsE : ∀ g, nb = p2 ++ Block.eof id g :: r2 →
+          encodeAll nb ++ tail = encodeAll p2 ++ ((Block.eof id g).encode ++ (encodeAll r2 ++ tail)) := by
+        intro g hg; rw [hg]; simp
+      have hwfe := (hoks _ (hmemE _ hbs2)).1
+      exact getHash_blocks (P := P) (utf8 := utf8) (i := id) p2 _ (encodeAll r2 ++ tail)
+        s'.index pname fi hfind (hsE _ hbs2) hwfe heof
+
+/-! ### Non-vacuity: a concrete op list with two interleaved files (and an `add`) meets every
+    hypothesis of `blocks`. -/
+
+/-- a 32-byte "hash" -/
+def exH : Bytes → Bytes := fun b => (b ++ List.replicate 32 0).take 32
+
+def exOps : List Op :=
+  [.start [97], .start [98], .append 0 2 [1, 2, 3], .append 1 1 [9], .append 0 1 [7],
+   .add [99] 2 [5, 6], .append 1 0 [], .end_ 1, .flush, .end_ 0, .finalize]
+
+theorem exH_len : ∀ b, (exH b).length = hashLen := by intro b; simp [exH, hashLen]
+theorem exOps_wf : ∀ op ∈ exOps, op.WF (fun _ => true) := by simp [exOps, Op.WF, U64]
+theorem exOps_accepted : AllAccepted Params.prod exH exOps := by unfold AllAccepted; decide
+theorem exOps_last : exOps.getLast? = some .finalize := by decide
+theorem exOps_len : exOps.length < U64 := by decide
+set_option maxRecDepth 4096 in
+theorem exOps_pos : (Writer.run Params.prod exH exOps).2.2.length < U64 := by decide
+
+example : specOf exOps = [([97], [1, 2, 7]), ([98], [9]), ([99], [5, 6])] := by decide
+
+/-- the theorem applies to the example: the interleaved file `a` reads back as `[1, 2, 7]` with
+    a 2-byte read buffer -/
+example :
+    Reader.getFile Params.prod (fun _ => true) (Writer.run Params.prod exH exOps).2.2
+      (Writer.run Params.prod exH exOps).1.index [97] 2 = .ok [1, 2, 7] :=
+  ((blocks Params.prod exH (fun _ => true) exOps exH_len exOps_wf exOps_accepted exOps_last
+    exOps_len exOps_pos).2 [97] [1, 2, 7] (by decide) 2 (by decide)).1
+
+/-! ### `hH` is necessary: with a hash function that does not return 32 bytes every call is
+    accepted and the content reads back, but `get_hash` returns the 32 bytes that follow the id in
+    the stream (here the end-of-archive marker and the beginning of the footer), not `H content`. -/
+
+def cexH : Bytes → Bytes := fun _ => []
+def cexOps : List Op := [.start [97], .append 0 2 [1, 2], .end_ 0, .finalize]
+
+example : AllAccepted Params.prod cexH cexOps := by unfold AllAccepted; decide
+set_option maxRecDepth 4096 in
+example :
+    Reader.getHash Params.prod (fun _ => true) (Writer.run Params.prod cexH cexOps).2.2
+      (Writer.run Params.prod cexH cexOps).1.index [97] =
+    .ok [254, 1, 0, 0, 0, 0, 0, 0, 0, 1, 0, 0, 0, 0, 0, 0, 0, 97, 1, 0, 0, 0, 0, 0, 0, 0,
+         0, 0, 0, 0, 0, 0] := by
+  rfl
+example : cexH [1, 2] = [] := rfl
 
 end MlaModel.C01
